@@ -53,6 +53,7 @@ func (e *Exec) resetPath() {
 	e.initDone = map[*ssa.Package]bool{}
 	e.inInit = false
 	e.pathVio = 0
+	e.ctxTimeouts = nil
 	e.model = map[*Term]*Term{}
 	e.modelOK = true
 	e.tt.fresh = 0
